@@ -105,6 +105,7 @@ impl Avoid {
 pub const TEXT_POOL: &[&str] = &[
     "abc", "Re:Zero", "x y", "[General]", "osu file format v9", "\u{4e0a}", "q\"q", "a,b", "1", "Tags tags", "\u{e9}", "|", "a/b", ": :",
     "\u{a0}z", "\u{3042}\u{3044}", "e\u{301}", "\u{1F3B5}", "[HitObjects]", "0,0,\"bg\"", "Mode: 3", "\u{10a}\u{a00}", "-", "#1", "(TV Size)",
+    "\u{212a}\u{212a}.avi", "\u{130}\u{130}.AVI", "\u{212a}.mp4",
 ];
 
 pub fn gen_text(t: &mut Tape, file: bool, avoid: Avoid) -> String {
